@@ -2708,6 +2708,55 @@ fn filtered<T: Clone + Into<Obj>>(env: &REnv, f: Func, v: Vec<T>, neg: bool) -> 
 fn multi_filter(env: &REnv, f: Func, v: Seq, neg: bool) -> NRes<Seq> {
     multi!(v, filtered(env, f, v, neg))
 }
+fn partitioned<T: Clone + Into<Obj>>(env: &REnv, f: &Func, v: Vec<T>) -> NRes<(Vec<T>, Vec<T>)> {
+    let mut acc_t = Vec::new();
+    let mut acc_f = Vec::new();
+    for x in v {
+        if f.run1(env, x.clone().into())?.truthy() {
+            acc_t.push(x)
+        } else {
+            acc_f.push(x)
+        }
+    }
+    Ok((acc_t, acc_f))
+}
+// like multi!, but with two results of the same type as the argument
+fn multi_partition(env: &REnv, f: Func, v: Seq) -> NRes<(Seq, Seq)> {
+    match v {
+        Seq::List(v) => {
+            let (t, e) = partitioned(env, &f, unwrap_or_clone(v))?;
+            Ok((Seq::List(Rc::new(t)), Seq::List(Rc::new(e))))
+        }
+        Seq::String(v) => {
+            let v = unwrap_or_clone(v).drain(..).collect::<Vec<char>>();
+            let (t, e) = partitioned(env, &f, v)?;
+            Ok((
+                Seq::String(Rc::new(t.into_iter().collect::<String>())),
+                Seq::String(Rc::new(e.into_iter().collect::<String>())),
+            ))
+        }
+        Seq::Dict(v, _def) => {
+            let v = unwrap_or_clone(v)
+                .into_keys()
+                .map(|k| key_to_obj(k))
+                .collect();
+            let (t, e) = partitioned(env, &f, v)?;
+            Ok((Seq::List(Rc::new(t)), Seq::List(Rc::new(e))))
+        }
+        Seq::Vector(v) => {
+            let (t, e) = partitioned(env, &f, unwrap_or_clone(v))?;
+            Ok((Seq::Vector(Rc::new(t)), Seq::Vector(Rc::new(e))))
+        }
+        Seq::Bytes(v) => {
+            let (t, e) = partitioned(env, &f, unwrap_or_clone(v))?;
+            Ok((Seq::Bytes(Rc::new(t)), Seq::Bytes(Rc::new(e))))
+        }
+        Seq::Stream(v) => {
+            let (t, e) = partitioned(env, &f, v.force()?)?;
+            Ok((Seq::List(Rc::new(t)), Seq::List(Rc::new(e))))
+        }
+    }
+}
 fn sorted_by<T: Clone + Into<Obj>>(env: &REnv, f: Func, mut v: Vec<T>) -> NRes<Vec<T>> {
     let mut ret = Ok(());
     v.sort_by(|a, b| {
@@ -4294,24 +4343,12 @@ pub fn initialize(env: &mut Env) {
     });
     env.insert_builtin(EnvTwoArgBuiltin {
         name: "partition".to_string(),
-        body: |env, mut a, b| {
-            let it = mut_obj_into_iter(&mut a, "partition")?;
-            match b {
-                Obj::Func(b, _) => {
-                    let mut acc_t = Vec::new();
-                    let mut acc_f = Vec::new();
-                    for e in it {
-                        let e = e?;
-                        if b.run1(env, e.clone())?.truthy() {
-                            acc_t.push(e)
-                        } else {
-                            acc_f.push(e)
-                        }
-                    }
-                    Ok(Obj::list(vec![Obj::list(acc_t), Obj::list(acc_f)]))
-                }
-                _ => Err(NErr::type_error("seq and func only".to_string())),
+        body: |env, a, b| match (a, b) {
+            (Obj::Seq(s), Obj::Func(f, _)) => {
+                let (t, e) = multi_partition(env, f, s)?;
+                Ok(Obj::list(vec![Obj::Seq(t), Obj::Seq(e)]))
             }
+            _ => Err(NErr::type_error("seq and func only".to_string())),
         },
     });
     env.insert_builtin(SeqAndMappedFoldBuiltin {
